@@ -4,23 +4,6 @@
 From PV Require Export OpathM.
 Open Scope N_scope.
 
-(* error.rs ErrorKind::errno (table regenerated by T0) *)
-Definition kind_errno (k : ekind) : option N :=
-  match k with
-  | OsError e => Some e
-  | OsErrorNone => None
-  | InvalidArgument => ERRNO_OF_InvalidArgument
-  | SafetyViolation => ERRNO_OF_SafetyViolation
-  | NotSupported => ERRNO_OF_NotSupported
-  | NotImplemented => ERRNO_OF_NotImplemented
-  | InternalError => ERRNO_OF_InternalError
-  end.
-
-Definition is_safety_violation (k : ekind) : bool :=
-  opt_n_eqb (kind_errno k) (kind_errno SafetyViolation).
-
-Definition errno_is (k : ekind) (e : N) : bool := opt_n_eqb (kind_errno k) (Some e).
-
 Record resolver := { rs_kernel : bool; rs_flags : N }.
 
 Section Root.
